@@ -76,6 +76,9 @@ type Call struct {
 	// paths this call operates on, for the overlap oracle
 	OnPath string // path of the node the call's class applies to
 	Victim string // for UnlinkAt: path of the entry being removed
+	// FencedBy: the receiver had been detached (its path unlinked or
+	// overwritten) by this earlier call when the call entered.
+	FencedBy *Call
 }
 
 // Class is the concurrency class documented on p9.File.
@@ -213,8 +216,9 @@ type Handle struct {
 	// Detached: the entry at this handle's notified path (or an ancestor) was
 	// removed by UnlinkAt or overwritten by RenameAt; it has no path to be
 	// coherent with, even if its object lives on under another link.
-	Detached bool
-	snap     []string // path snapshot (see PathParts)
+	Detached   bool
+	DetachedBy *Call    // the UnlinkAt / RenameAt that detached it
+	snap       []string // path snapshot (see PathParts)
 }
 
 var _ p9.File = (*Handle)(nil)
@@ -410,6 +414,9 @@ func (fs *FS) enter(h *Handle, method string, class Class, names []string, args 
 		c.Path = h.PathString()
 		c.OnPath = c.Path
 		h.Uses++
+		if h.Detached {
+			c.FencedBy = h.DetachedBy
+		}
 		if h.Closed > 0 {
 			h.UsedAfterClose++
 			fs.problem("use-after-close", c, fmt.Sprintf("%s on handle %d (%s) after Close", method, h.ID, c.Path))
@@ -1142,7 +1149,7 @@ func (h *Handle) Rename(newDir p9.File, newName string) error {
 }
 
 // detachHandles marks every open handle at or below path as detached.
-func (fs *FS) detachHandles(path string) {
+func (fs *FS) detachHandles(path string, by *Call) {
 	for _, h := range fs.Handles {
 		if h.Closed > 0 || h.Detached {
 			continue
@@ -1150,6 +1157,7 @@ func (fs *FS) detachHandles(path string) {
 		p := h.PathString()
 		if p == path || strings.HasPrefix(p, path+"/") {
 			h.Detached = true
+			h.DetachedBy = by
 		}
 	}
 }
@@ -1225,7 +1233,7 @@ func (h *Handle) RenameAt(oldName string, newDir p9.File, newName string) error 
 			}
 		}
 		fs.detach(old)
-		fs.detachHandles(strings.TrimSuffix(nd.PathString(), "/") + "/" + newName)
+		fs.detachHandles(strings.TrimSuffix(nd.PathString(), "/")+"/"+newName, c)
 	}
 	// moving a directory below itself
 	if n.IsDir() {
@@ -1292,7 +1300,7 @@ func (h *Handle) UnlinkAt(name string, flags uint32) error {
 	}
 	delete(dir.Children, name)
 	fs.detach(n)
-	fs.detachHandles(c.Victim)
+	fs.detachHandles(c.Victim, c)
 	return nil
 }
 
